@@ -36,7 +36,8 @@ def compare(expected, got, arguments=True, ignore_below=()):
                     % (expected[1], got["outcome"]))
         if expected[1] == "unexpected" and not (isinstance(got["exc"], RuntimeError) and str(got["exc"]) == "unexpected"):
             return ("execute:unexpected-exception-surfaces-unchanged", "the resolver's RuntimeError('unexpected') was replaced by %r" % (got["exc"],))
-        for cls in (IndexError, KeyError):
+        import py_gql.exc as X
+        for cls in (IndexError, KeyError, X.UnknownEnumValue, X.InvalidValue):
             if expected[1].startswith(cls.__name__) and not isinstance(got["exc"], cls):
                 return ("execute:unexpected-exception-surfaces-unchanged", "the resolver's %s was replaced by %r" % (cls.__name__, got["exc"]))
         return None
